@@ -26,7 +26,7 @@ def _hostpart(a):
     return a
 
 
-def evaluate(facts, version, auth, host, tls):
+def evaluate(facts, version, auth, host, tls, preset=False):
     fn = facts.fn(FN)
     if not hasattr(facts, "_sni_unit"):
         pats = [re.compile(p) for p, _ in seqmodel.RAW_ORACLES]
@@ -132,7 +132,7 @@ def evaluate(facts, version, auth, host, tls):
            (r"PartialEq.*::(eq|ne)$", o_str_eq), (r"Span::current$", const("SPAN"))] + seqmodel.OPTION_ORACLES + seqmodel.RAW_ORACLES
     f_ = {i: ("const", "TLS_" + x["name"]) for i, x in enumerate(fl)}
     f_[si[0]] = some(("const", "str:" + SNI_NAME)) if tls == "sni" else NONE
-    f_[vi[0]] = ("const", "false")
+    f_[vi[0]] = ("const", "true" if preset else "false")
     st = {1: ("const", "REQ"), TLS: ("variant", "TlsConnectionInfo", tuple(sorted(f_.items())))}
 
     def marked(st_):
@@ -185,6 +185,15 @@ def table(ctx, facts, label="sni::handle"):
                         ctx.touched(u)
                     rows += 1
                     want = spec(version, auth, host, tls)
+                    if tls == "sni":
+                        # the verdict does not depend on what the mark said before: a connection whose information arrives
+                        # already marked is checked all the same
+                        try:
+                            _, got2 = evaluate(facts, version, auth, host, tls, preset=True)
+                        except AbsPaths.Undecided as e:
+                            got2 = {("?", str(e))}
+                        ctx.check({v for (v, _) in got2} == {want[0]}, key + "|already-marked", "the same verdict (%s) when the TLS information arrives already marked as validated" % want[0],
+                                  "with TLS information that is already marked validated the check answers %s, expected %s: the mark bypasses the comparison" % (sorted(got2), want[0]), u.where())
                     ctx.check(got == {want}, key, "%s, URI authority %s, Host header %s, TLS info %s: %s%s" % (version, auth, host, tls, want[0], " and marked validated" if want[1] == "true" else ""),
                               "%s, URI authority %s, Host header %s, TLS info %s: the check can answer %s (verdict, marked validated); expected %s" % (version, auth, host, tls, sorted(got), want), u.where())
     ctx.floor("%s|table-rows" % label, rows, 54, "scenarios evaluated")
